@@ -643,9 +643,14 @@ pub fn run(ctx: &Ctx) -> i32 {
         "C12" => msg_family(ctx, false, "fam_msg_s1",
             "fam_msg programs (S1 names, so the raw JSON is produced by the model encoder alone); per program `cases`*5/8 histories of 1..12 (thorough ..30) operations over 3 senders with initial balances: instantiate (label / admin / funds / salt options, each present or not), exec with funds, query, sudo, migrate to a freshly stored code, and a switch making a contract's handlers fail; chain A is driven through the generated proxies (CodeId::store_code, InstantiateProxy options, ExecProxy::with_funds, query / sudo / migrate proxies), chain B is a plain cw-multi-test app holding ContractWrapper over the generated entry points and receives WasmMsg::{Instantiate,Instantiate2,Execute,Migrate} / WasmQuery::Smart / SudoMsg::Wasm with model-encoded JSON bodies; after every step results (addresses, events, data, query values) and storage dumps, contract info (code id, creator, admin, label) and all balances must agree; a failing handler must surface on the proxy side as the contract's error type equal to the error the handler constructed. Non-trivial = history with an instantiate carrying >=2 options, a failing handler and an exec with funds after it.",
             &[A_ECHO, A_SERDE, A_NATIVE, A_DOMAIN, "failures that do not come from a handler (insufficient funds, not the admin) are compared as `both sides fail and states stay equal`; a proxy that panics there is counted as failing (the property speaks about handler errors)", "override_entry_point programs are exercised by C06; reply programs by C07-C09"]),
-        "C16" => msg_family(ctx, true, "fam_msg_s2",
+        "C16" => {
+            let mut out = msg_family(ctx, true, "fam_msg_s2",
             "for every generated program and every part: QueryResponses::response_schemas() is Ok, its key set equals the wire names of the part's queries (plus at most one unsendable placeholder), each entry equals schema_for!(declared response type) computed from svrt's own types; the contract-level table equals the union of the parts; schema_for!(Contract{Exec,Query,Sudo}Msg) is an anyOf whose members resolve to the parts' schemas. Non-trivial = a part with >=2 distinct response types or a part-spanning union.",
-            &[A_NATIVE, A_DOMAIN, "response types: three plain structs, generic parameter, associated type, explicit resp= behind a result alias"]),
+            &[A_NATIVE, A_DOMAIN, "response types: three plain structs, generic parameter, associated type, explicit resp= behind a result alias (also for a generic parameter), explicit resp= whose published type differs from the (wire-compatible) type in the signature"]);
+            out.rule.push_str(" || (E3 probe units) an interface query whose response is an associated type, inferred from the signature and named explicitly with resp=: must compile.");
+            crate::e3props::run_probes(ctx, "units_c16", crate::e3props::c16_probes(), None, &mut out);
+            out
+        }
         other => {
             eprintln!("unknown property {other}");
             return 2;
